@@ -95,11 +95,11 @@ package main
 //@   ensures object-or-error: (result0 == nil) == (result1 != nil)
 //@   ensures top-level-untouched {C04}: implies(result1 == nil, om(result0) == E)
 //@   ensures attr-changes-only-in-zones {C04,C03}: implies(result1 == nil && hasAttr, ChangedOnlyAt(gate, redactIPs, redactNamespaces, len(eagerRedactionPaths) > 0, A, B))
-//@   ensures command-slot {C01,C02,C03,C04,C05,C12,C14,C15,C19}: implies(result1 == nil && hasAttr && gate, SlotOK(c, A, B, "command"))
-//@   ensures cmd-slot {C01,C02,C03,C04,C05,C12,C14,C15,C19}: implies(result1 == nil && hasAttr && gate, SlotOK(c, A, B, "cmd"))
-//@   ensures originating-command-slot {C01,C02,C03,C04,C05,C12,C14,C15,C19}: implies(result1 == nil && hasAttr && gate, SlotOK(c, A, B, "originatingCommand"))
+//@   ensures command-slot {C01,C02,C03,C04,C05,C12,C13,C14,C15,C19}: implies(result1 == nil && hasAttr && gate, SlotOK(c, A, B, "command"))
+//@   ensures cmd-slot {C01,C02,C03,C04,C05,C12,C13,C14,C15,C19}: implies(result1 == nil && hasAttr && gate, SlotOK(c, A, B, "cmd"))
+//@   ensures originating-command-slot {C01,C02,C03,C04,C05,C12,C13,C14,C15,C19}: implies(result1 == nil && hasAttr && gate, SlotOK(c, A, B, "originatingCommand"))
 //@   ensures attr-ns-pseudonymised {C12,C13}: implies(result1 == nil && hasAttr && redactNamespaces && omIdx(A, "ns") >= 0, NsHashed(redactedString, omVal(A, omIdx(A, "ns")), omVal(B, omIdx(A, "ns"))))
-//@   ensures remote-address-replaced {C01,C02,C03,C04,C05,C12,C14,C15,C19}: implies(result1 == nil && hasAttr && redactIPs && omIdx(A, "remote") >= 0 && isStr(omVal(A, omIdx(A, "remote"))), omVal(B, omIdx(A, "remote")) == VStr(C_IP))
+//@   ensures remote-address-replaced {C01,C02,C03,C04,C05,C12,C13,C14,C15,C19}: implies(result1 == nil && hasAttr && redactIPs && omIdx(A, "remote") >= 0 && isStr(omVal(A, omIdx(A, "remote"))), omVal(B, omIdx(A, "remote")) == VStr(C_IP))
 //@   at_call redactFieldNamesFromPlanSummary plan-summary-only-in-field-name-mode {C15}: shouldEagerRedact
 
 //@ func MarshalOrdered
@@ -415,7 +415,7 @@ package main
 //@ func isInSearchStage
 //@   safety C07
 //@   props C01 C04
-//@   defines search-stage-decision {C01,C02,C03,C04,C05,C12,C14,C15,C19}: IsSearch(stage, result) := true
+//@   defines search-stage-decision {C01,C02,C03,C04,C05,C12,C13,C14,C15,C19}: IsSearch(stage, result) := true
 //@   assigns nothing
 //@   loop 1 invariant el-valid: el == nil || elMap(el) == m
 
@@ -447,7 +447,7 @@ package main
 //@   ensures nil-when-absent: implies(!result1, result0 == nil)
 //@   ensures the-lookup-leaves-the-key-path-as-it-is {C05,C14,C01}: unchangedBelow("Arr:Str")
 //@   loop 1 invariant table-entry: (_idx == 0 && current == VMap(operatorMap)) || (_idx >= 1 && TE(path[_idx-1], current))
-//@   ensures table-entry {C01,C02,C03,C04,C05,C12,C14,C15,C19}: implies(result1 && isOp(result0) && result0 != VOp(5), (len(path) >= 1 && TE(old(path[len(path)-1]), result0)) || MarkerTE(result0))
+//@   ensures table-entry {C01,C02,C03,C04,C05,C12,C13,C14,C15,C19}: implies(result1 && isOp(result0) && result0 != VOp(5), (len(path) >= 1 && TE(old(path[len(path)-1]), result0)) || MarkerTE(result0))
 
 //@ func getOp
 //@   safety C07
@@ -458,7 +458,7 @@ package main
 //@   ensures table-value: implies(result1, tableVal(result0))
 //@   ensures nil-when-absent: implies(!result1, result0 == nil)
 //@   ensures the-lookup-leaves-the-key-path-as-it-is {C05,C14,C01}: unchangedBelow("Arr:Str")
-//@   ensures table-entry {C01,C02,C03,C04,C05,C12,C14,C15,C19}: implies(result1 && isOp(result0) && result0 != VOp(5), TE(old(keyPath[len(keyPath)-1]), result0) || MarkerTE(result0))
+//@   ensures table-entry {C01,C02,C03,C04,C05,C12,C13,C14,C15,C19}: implies(result1 && isOp(result0) && result0 != VOp(5), TE(old(keyPath[len(keyPath)-1]), result0) || MarkerTE(result0))
 //@   trusted_ensures: result0 == opAtVal(old(selems(keyPath)), off(keyPath), len(keyPath), isSearchStage) && result1 == opAtOk(old(selems(keyPath)), off(keyPath), len(keyPath), isSearchStage)
 
 //@ func reMatchesAnyKeyInPath
@@ -496,19 +496,19 @@ package main
 //@   local CT := b64enc(daeadEnc(mkbytes(elems(encryptionKey), off(encryptionKey), len(encryptionKey)), sbytes(strOf(v)), noBytes))
 //@   ensures key-path-frame: unchangedBelow("Arr:Str")
 //@   ensures string-class-placeholder {C05,C02,C19,C10,C09}: implies(isStr(v), result == v || result == VStr(P) || (enc && result == VStr(CT)))
-//@   ensures string-kept-only-where-allowed {C01,C02,C03,C04,C05,C12,C14,C15,C19}: implies(isStr(v) && result == v, (sel && !named) || polExempt(pk) || (pk == "subType" && gpk == "$binary") || v == VStr(P) || (enc && v == VStr(CT)))
+//@   ensures string-kept-only-where-allowed {C01,C02,C03,C04,C05,C12,C13,C14,C15,C19}: implies(isStr(v) && result == v, (sel && !named) || polExempt(pk) || (pk == "subType" && gpk == "$binary") || v == VStr(P) || (enc && v == VStr(CT)))
 //@   ensures number-zero-or-kept {C05,C03,C04}: implies(isNum(v), result == v || (redactNumbers && result == VF64(f64_0)))
-//@   ensures number-kept-only-where-allowed {C01,C02,C03,C04,C05,C12,C14,C15,C19}: implies(isNum(v) && result == v, !redactNumbers || (sel && !named) || polExempt(pk) || (pk == "subType" && gpk == "$binary"))
+//@   ensures number-kept-only-where-allowed {C01,C02,C03,C04,C05,C12,C13,C14,C15,C19}: implies(isNum(v) && result == v, !redactNumbers || (sel && !named) || polExempt(pk) || (pk == "subType" && gpk == "$binary"))
 //@   ensures number-verbatim-without-flag {C04}: implies(isNum(v) && !redactNumbers, result == v)
 //@   ensures boolean-false-or-kept {C05,C03}: implies(isBool(v), result == v || (redactBooleans && result == VBool(false)))
-//@   ensures boolean-kept-only-where-allowed {C01,C02,C03,C04,C05,C12,C14,C15,C19}: implies(isBool(v) && result == v, !redactBooleans || (sel && !named) || polExempt(pk) || (pk == "subType" && gpk == "$binary") || v == VBool(false))
+//@   ensures boolean-kept-only-where-allowed {C01,C02,C03,C04,C05,C12,C13,C14,C15,C19}: implies(isBool(v) && result == v, !redactBooleans || (sel && !named) || polExempt(pk) || (pk == "subType" && gpk == "$binary") || v == VBool(false))
 //@   ensures null-stays-null {C03}: implies(v == nil, result == nil)
 //@   ensures the-binary-subtype-is-kept {C04,C05}: implies(pk == "subType" && gpk == "$binary", result == v)
 //@   ensures unchanged-when-no-name-matches {C14}: implies(sel && !named, result == v)
 //@   ensures redacted-when-a-name-matches {C14}: implies(sel && named && isStr(v) && !polExempt(pk) && !(pk == "subType" && gpk == "$binary"), result == VStr(P) || (enc && result == VStr(CT)))
 //@   ensures search-stage-ignores-selection {C14}: implies(isSearchStage && isStr(v) && !polExempt(pk) && !(pk == "subType" && gpk == "$binary"), result == VStr(P) || (enc && result == VStr(CT)))
 //@   local c := mkCfg(redactedString, redactNumbers, redactBooleans, shouldEncrypt && encryptionKey != nil, mkbytes(elems(encryptionKey), off(encryptionKey), len(encryptionKey)), redactedFieldsRegexp, emailRegex, redactNamespaces)
-//@   ensures leaf-relation {C01,C02,C03,C04,C05,C12,C14,C15,C19}: LeafOK(c, isSearchStage, pk, gpk, v, result)
+//@   ensures leaf-relation {C01,C02,C03,C04,C05,C12,C13,C14,C15,C19}: LeafOK(c, isSearchStage, pk, gpk, v, result)
 //@   local keptByOperator := opAtOk(selems(keyPath), off(keyPath), len(keyPath), isSearchStage) && opAtVal(selems(keyPath), off(keyPath), len(keyPath), isSearchStage) == VOp(1)
 //@   ensures exact-leaf-function {C02,C19}: implies(!enc && (v == nil || isStr(v) || isNum(v) || isBool(v)), result == ite((pk == "subType" && gpk == "$binary") || keptByOperator || (sel && !named), v, leafPH(c, pk, gpk, v)))
 
@@ -558,9 +558,9 @@ package main
 //@   loop 1 invariant key-path-frame: unchangedBelowExcept("Arr:Str", base(keyPath))
 //@   loop 1 invariant scalar-path: (len(keyPath) > 0 && scalarPath == keyPath) || (len(keyPath) == 0 && len(scalarPath) == 1 && scalarPath[0] == parentKey && base(scalarPath) != base(keyPath) && base(scalarPath) <= heapTop)
 //@   loop 1 mandatory
-//@   loop 1 each element-relation {C01,C02,C03,C04,C05,C12,C14,C15,C19}: ElemRelA(c, redactFieldNames, isSearchStage, ite(len(keyPath) > 0, keyPath[len(keyPath)-1], parentKey), item, arr[_idx])
+//@   loop 1 each element-relation {C01,C02,C03,C04,C05,C12,C13,C14,C15,C19}: ElemRelA(c, redactFieldNames, isSearchStage, ite(len(keyPath) > 0, keyPath[len(keyPath)-1], parentKey), item, arr[_idx])
 //@   ensures key-path-frame: unchangedBelowExcept("Arr:Str", base(keyPath))
-//@   defines array-relation {C01,C02,C03,C04,C05,C12,C14,C15,C19}: RelA(c, redactFieldNames, isSearchStage, pk, arr) := true
+//@   defines array-relation {C01,C02,C03,C04,C05,C12,C13,C14,C15,C19}: RelA(c, redactFieldNames, isSearchStage, pk, arr) := true
 //@   at_call redactScalarValue scalars-are-matched-against-the-full-key-path {C14,C05}: len(keyPath) == 0 || (arg_keyPath == keyPath && arg_isSelectivelyRedactable == isSelectivelyRedactable)
 
 //@ func redactArrayValues
@@ -571,7 +571,7 @@ package main
 //@   local c := mkCfg(redactedString, redactNumbers, redactBooleans, shouldEncrypt && encryptionKey != nil, mkbytes(elems(encryptionKey), off(encryptionKey), len(encryptionKey)), redactedFieldsRegexp, emailRegex, redactNamespaces)
 //@   ensures same-slice: result == arr
 //@   ensures key-path-frame: unchangedBelowExcept("Arr:Str", base(keyPath))
-//@   defines array-relation {C01,C02,C03,C04,C05,C12,C14,C15,C19}: RelA(c, redactFieldNames, isSearchStage, ite(len(keyPath) > 0, keyPath[len(keyPath)-1], ""), arr) := true
+//@   defines array-relation {C01,C02,C03,C04,C05,C12,C13,C14,C15,C19}: RelA(c, redactFieldNames, isSearchStage, ite(len(keyPath) > 0, keyPath[len(keyPath)-1], ""), arr) := true
 
 //@ func redactQueryValues
 //@   safety C07
@@ -584,10 +584,10 @@ package main
 //@   loop 1 invariant frame: unchangedBelow("Mem:OMap") && newObj > old(heapTop) && newObj <= heapTop && !isTable(newObj) && (el == nil || elMap(el) == obj)
 //@   loop 1 invariant key-path-frame: unchangedBelowExcept("Arr:Str", base(keyPath))
 //@   loop 1 invariant position: el == nil || (0 <= elPos(el) && elPos(el) < omLen(om(obj)))
-//@   loop 1 invariant relation {C01,C02,C03,C04,C05,C12,C14,C15,C19}: QAcc(c, redactFieldNames, isSearchStage, old(om(obj)), ite(el == nil, omLen(old(om(obj))), elPos(el)), om(newObj))
+//@   loop 1 invariant relation {C01,C02,C03,C04,C05,C12,C13,C14,C15,C19}: QAcc(c, redactFieldNames, isSearchStage, old(om(obj)), ite(el == nil, omLen(old(om(obj))), elPos(el)), om(newObj))
 //@   ensures fresh-map: result > old(heapTop) && result <= heapTop && !isTable(result)
 //@   ensures key-path-frame: unchangedBelowExcept("Arr:Str", base(keyPath))
-//@   defines level-relation {C01,C02,C03,C04,C05,C12,C14,C15,C19}: RelQ(c, redactFieldNames, isSearchStage, obj, result) := QRel(c, redactFieldNames, isSearchStage, old(om(obj)), om(result))
+//@   defines level-relation {C01,C02,C03,C04,C05,C12,C13,C14,C15,C19}: RelQ(c, redactFieldNames, isSearchStage, obj, result) := QRel(c, redactFieldNames, isSearchStage, old(om(obj)), om(result))
 //@   at_call redactScalarValue the-leaf-is-classified-under-its-parent-and-grand-parent-key {C05,C01,C19}: len(arg_keyPath) >= 1 && arg_keyPath[len(arg_keyPath)-1] == k && implies(len(keyPath) > 0, len(arg_keyPath) >= 2 && arg_keyPath[len(arg_keyPath)-2] == keyPath[len(keyPath)-1])
 //@   at_call redactScalarValue the-key-path-carries-every-name-down-to-the-value {C14}: matchAny(redactedFieldsRegexp, selems(arg_keyPath), off(arg_keyPath), len(arg_keyPath)) == (matchAny(redactedFieldsRegexp, selems(keyPath), off(keyPath), len(keyPath)) || reMatch(redactedFieldsRegexp, k))
 //@   at_call redactQueryValues the-key-path-carries-every-name-down-to-the-value {C14}: matchAny(redactedFieldsRegexp, selems(arg_keyPath), off(arg_keyPath), len(arg_keyPath)) == (matchAny(redactedFieldsRegexp, selems(keyPath), off(keyPath), len(keyPath)) || reMatch(redactedFieldsRegexp, k))
@@ -604,10 +604,10 @@ package main
 //@   requires maps: op != nil && v != nil
 //@   requires operator-table: isTable(op)
 //@   loop 1 invariant frame: unchangedBelow("Mem:OMap") && augmentedOp > old(heapTop) && augmentedOp <= heapTop && !isTable(augmentedOp) && (el == nil || elMap(el) == op)
-//@   loop 1 invariant entries-are-table-facts {C01,C02,C03,C04,C05,C12,C14,C15,C19}: AugState(om(augmentedOp))
+//@   loop 1 invariant entries-are-table-facts {C01,C02,C03,C04,C05,C12,C13,C14,C15,C19}: AugState(om(augmentedOp))
 //@   loop 2 invariant frame: unchangedBelow("Mem:OMap") && augmentedOp > old(heapTop) && augmentedOp <= heapTop && !isTable(augmentedOp) && (el == nil || elMap(el) == augmentedOp)
-//@   loop 2 invariant entries-are-table-facts {C01,C02,C03,C04,C05,C12,C14,C15,C19}: AugState(om(augmentedOp))
-//@   ensures copy-of-a-table {C01,C02,C03,C04,C05,C12,C14,C15,C19}: AugState(omOfOpq(result)) && implies(redactedFieldsRegexp == nil, TableState(omOfOpq(result)))
+//@   loop 2 invariant entries-are-table-facts {C01,C02,C03,C04,C05,C12,C13,C14,C15,C19}: AugState(om(augmentedOp))
+//@   ensures copy-of-a-table {C01,C02,C03,C04,C05,C12,C13,C14,C15,C19}: AugState(omOfOpq(result)) && implies(redactedFieldsRegexp == nil, TableState(omOfOpq(result)))
 
 //@ func redactPipelineStage
 //@   safety C07
@@ -618,33 +618,33 @@ package main
 //@   local A := om(mapOf(stage))
 //@   loop 1 invariant frame: unchangedBelow("Mem:OMap") && newMap > old(heapTop) && newMap <= heapTop && !isTable(newMap) && (el == nil || (elMap(el) == mapOf(stage) && 0 <= elPos(el) && elPos(el) < omLen(A)))
 //@   loop 1 invariant key-path-frame: unchangedBelowExcept("Arr:Str", base(keyPath))
-//@   loop 1 invariant relation {C01,C02,C03,C04,C05,C12,C14,C15,C19}: PAcc(c, redactFieldNames, inSearchStage, A, ite(el == nil, omLen(A), elPos(el)), om(newMap))
+//@   loop 1 invariant relation {C01,C02,C03,C04,C05,C12,C13,C14,C15,C19}: PAcc(c, redactFieldNames, inSearchStage, A, ite(el == nil, omLen(A), elPos(el)), om(newMap))
 //@   loop 2 invariant key-path-frame: unchangedBelowExcept("Arr:Str", base(keyPath))
-//@   loop 2 each stage-relation {C01,C02,C03,C04,C05,C12,C14,C15,C19}: RelS(c, redactFieldNames, true, stage, subPipeline[_idx]) || RelS(c, redactFieldNames, false, stage, subPipeline[_idx])
+//@   loop 2 each stage-relation {C01,C02,C03,C04,C05,C12,C13,C14,C15,C19}: RelS(c, redactFieldNames, true, stage, subPipeline[_idx]) || RelS(c, redactFieldNames, false, stage, subPipeline[_idx])
 //@   loop 3 invariant frame: unchangedBelow("Mem:OMap") && newPipelineMap > old(heapTop) && newPipelineMap <= heapTop && !isTable(newPipelineMap) && newPipelineMap != newMap && (subEl == nil || (elMap(subEl) == vMap && 0 <= elPos(subEl) && elPos(subEl) < omLen(old(om(vMap)))))
 //@   loop 3 invariant key-path-frame: unchangedBelowExcept("Arr:Str", base(keyPath))
 //@   loop 3 invariant outer-relation: PAcc(c, redactFieldNames, inSearchStage, A, elPos(el), om(newMap))
-//@   loop 3 invariant sub-pipelines {C01,C02,C03,C04,C05,C12,C14,C15,C19}: FAcc(old(om(vMap)), ite(subEl == nil, omLen(old(om(vMap))), elPos(subEl)), om(newPipelineMap))
+//@   loop 3 invariant sub-pipelines {C01,C02,C03,C04,C05,C12,C13,C14,C15,C19}: FAcc(old(om(vMap)), ite(subEl == nil, omLen(old(om(vMap))), elPos(subEl)), om(newPipelineMap))
 //@   loop 4 invariant key-path-frame: unchangedBelowExcept("Arr:Str", base(keyPath))
-//@   loop 4 each stage-relation {C01,C02,C03,C04,C05,C12,C14,C15,C19}: RelS(c, redactFieldNames, true, stage, newPipeline[_idx]) || RelS(c, redactFieldNames, false, stage, newPipeline[_idx])
+//@   loop 4 each stage-relation {C01,C02,C03,C04,C05,C12,C13,C14,C15,C19}: RelS(c, redactFieldNames, true, stage, newPipeline[_idx]) || RelS(c, redactFieldNames, false, stage, newPipeline[_idx])
 //@   loop 5 invariant key-path-frame: unchangedBelowExcept("Arr:Str", base(keyPath))
-//@   loop 5 each element-relation {C01,C02,C03,C04,C05,C12,C14,C15,C19}: RelS(c, redactFieldNames, inSearchStage, elem, redactedArr[_idx])
+//@   loop 5 each element-relation {C01,C02,C03,C04,C05,C12,C13,C14,C15,C19}: RelS(c, redactFieldNames, inSearchStage, elem, redactedArr[_idx])
 //@   loop 6 invariant frame: unchangedBelow("Mem:OMap") && newSubMap > old(heapTop) && newSubMap <= heapTop && !isTable(newSubMap) && newSubMap != newMap && (subEl == nil || (elMap(subEl) == subMap && 0 <= elPos(subEl) && elPos(subEl) < omLen(old(om(subMap)))))
 //@   loop 6 invariant key-path-frame: unchangedBelowExcept("Arr:Str", base(keyPath))
 //@   loop 6 invariant outer-relation: PAcc(c, redactFieldNames, inSearchStage, A, elPos(el), om(newMap)) && (isTable(mapOf(opMeta)) || (inSearchStage && AugState(om(mapOf(opMeta))) && implies(redactedFieldsRegexp == nil, TableState(om(mapOf(opMeta))))))
-//@   loop 6 invariant relation-sub {C01,C02,C03,C04,C05,C12,C14,C15,C19}: PAcc(c, redactFieldNames, inSearchStage, old(om(subMap)), ite(subEl == nil, omLen(old(om(subMap))), elPos(subEl)), om(newSubMap))
+//@   loop 6 invariant relation-sub {C01,C02,C03,C04,C05,C12,C13,C14,C15,C19}: PAcc(c, redactFieldNames, inSearchStage, old(om(subMap)), ite(subEl == nil, omLen(old(om(subMap))), elPos(subEl)), om(newSubMap))
 //@   loop 7 invariant key-path-frame: unchangedBelowExcept("Arr:Str", base(keyPath))
-//@   loop 7 each element-relation {C01,C02,C03,C04,C05,C12,C14,C15,C19}: RelS(c, redactFieldNames, inSearchStage, elem, redactedArr[_idx])
+//@   loop 7 each element-relation {C01,C02,C03,C04,C05,C12,C13,C14,C15,C19}: RelS(c, redactFieldNames, inSearchStage, elem, redactedArr[_idx])
 //@   loop 8 invariant key-path-frame: unchangedBelowExcept("Arr:Str", base(keyPath))
-//@   loop 8 each stage-relation {C01,C02,C03,C04,C05,C12,C14,C15,C19}: RelS(c, redactFieldNames, true, stage, newPipeline[_idx]) || RelS(c, redactFieldNames, false, stage, newPipeline[_idx])
-//@   assert_after (*orderedmap.OrderedMap).Set@newMap entry-done {C01,C02,C03,C04,C05,C12,C14,C15,C19}: PAcc(c, redactFieldNames, inSearchStage, A, elPos(el) + 1, om(newMap))
-//@   assert_after (*orderedmap.OrderedMap).Set@newSubMap sub-entry-done {C01,C02,C03,C04,C05,C12,C14,C15,C19}: PAcc(c, redactFieldNames, inSearchStage, old(om(subMap)), elPos(subEl) + 1, om(newSubMap))
-//@   at_call (*orderedmap.OrderedMap).Set@newMap entry-relation {C01,C02,C03,C04,C05,C12,C14,C15,C19}: implies(!((opMeta == VOp(1) && isArr(v) && value == v)), keyOKq(c, redactFieldNames, k, key) && ElemRelP(c, redactFieldNames, inSearchStage, k, v, value, om(mapOf(v)), om(mapOf(value))))
-//@   at_call (*orderedmap.OrderedMap).Set@newMap entry-relation-array-kept-under-an-exempt-key {C01,C02,C03,C04,C05,C12,C14,C15,C19}: implies((opMeta == VOp(1) && isArr(v) && value == v), keyOKq(c, redactFieldNames, k, key) && ElemRelP(c, redactFieldNames, inSearchStage, k, v, value, om(mapOf(v)), om(mapOf(value))))
-//@   at_call (*orderedmap.OrderedMap).Set@newSubMap sub-entry-relation {C01,C02,C03,C04,C05,C12,C14,C15,C19}: implies(!((subMeta == VOp(1) && isArr(subV) && value == subV)), keyOKq(c, redactFieldNames, subK, key) && ElemRelP(c, redactFieldNames, inSearchStage, subK, subV, value, om(mapOf(subV)), om(mapOf(value))))
-//@   at_call (*orderedmap.OrderedMap).Set@newSubMap sub-entry-relation-array-kept-under-an-exempt-key {C01,C02,C03,C04,C05,C12,C14,C15,C19}: implies((subMeta == VOp(1) && isArr(subV) && value == subV), keyOKq(c, redactFieldNames, subK, key) && ElemRelP(c, redactFieldNames, inSearchStage, subK, subV, value, om(mapOf(subV)), om(mapOf(value))))
-//@   at_call (*orderedmap.OrderedMap).Set@newMap a-sub-pipeline-is-rebuilt-stage-by-stage {C01,C02,C03,C04,C05,C12,C14,C15,C19}: implies(opMeta == VOp(0) && isArr(v), isArr(value) && len(arrOf(value)) == len(arrOf(v)) && (len(arrOf(v)) == 0 || base(arrOf(value)) != base(arrOf(v))))
-//@   at_call (*orderedmap.OrderedMap).Set@newSubMap a-sub-pipeline-is-rebuilt-stage-by-stage {C01,C02,C03,C04,C05,C12,C14,C15,C19}: implies(subFound && subMeta == VOp(0) && isArr(subV), isArr(value) && len(arrOf(value)) == len(arrOf(subV)) && (len(arrOf(subV)) == 0 || base(arrOf(value)) != base(arrOf(subV))))
+//@   loop 8 each stage-relation {C01,C02,C03,C04,C05,C12,C13,C14,C15,C19}: RelS(c, redactFieldNames, true, stage, newPipeline[_idx]) || RelS(c, redactFieldNames, false, stage, newPipeline[_idx])
+//@   assert_after (*orderedmap.OrderedMap).Set@newMap entry-done {C01,C02,C03,C04,C05,C12,C13,C14,C15,C19}: PAcc(c, redactFieldNames, inSearchStage, A, elPos(el) + 1, om(newMap))
+//@   assert_after (*orderedmap.OrderedMap).Set@newSubMap sub-entry-done {C01,C02,C03,C04,C05,C12,C13,C14,C15,C19}: PAcc(c, redactFieldNames, inSearchStage, old(om(subMap)), elPos(subEl) + 1, om(newSubMap))
+//@   at_call (*orderedmap.OrderedMap).Set@newMap entry-relation {C01,C02,C03,C04,C05,C12,C13,C14,C15,C19}: implies(!((opMeta == VOp(1) && isArr(v) && value == v)), keyOKq(c, redactFieldNames, k, key) && ElemRelP(c, redactFieldNames, inSearchStage, k, v, value, om(mapOf(v)), om(mapOf(value))))
+//@   at_call (*orderedmap.OrderedMap).Set@newMap entry-relation-array-kept-under-an-exempt-key {C01,C02,C03,C04,C05,C12,C13,C14,C15,C19}: implies((opMeta == VOp(1) && isArr(v) && value == v), keyOKq(c, redactFieldNames, k, key) && ElemRelP(c, redactFieldNames, inSearchStage, k, v, value, om(mapOf(v)), om(mapOf(value))))
+//@   at_call (*orderedmap.OrderedMap).Set@newSubMap sub-entry-relation {C01,C02,C03,C04,C05,C12,C13,C14,C15,C19}: implies(!((subMeta == VOp(1) && isArr(subV) && value == subV)), keyOKq(c, redactFieldNames, subK, key) && ElemRelP(c, redactFieldNames, inSearchStage, subK, subV, value, om(mapOf(subV)), om(mapOf(value))))
+//@   at_call (*orderedmap.OrderedMap).Set@newSubMap sub-entry-relation-array-kept-under-an-exempt-key {C01,C02,C03,C04,C05,C12,C13,C14,C15,C19}: implies((subMeta == VOp(1) && isArr(subV) && value == subV), keyOKq(c, redactFieldNames, subK, key) && ElemRelP(c, redactFieldNames, inSearchStage, subK, subV, value, om(mapOf(subV)), om(mapOf(value))))
+//@   at_call (*orderedmap.OrderedMap).Set@newMap a-sub-pipeline-is-rebuilt-stage-by-stage {C01,C02,C03,C04,C05,C12,C13,C14,C15,C19}: implies(opMeta == VOp(0) && isArr(v), isArr(value) && len(arrOf(value)) == len(arrOf(v)) && (len(arrOf(v)) == 0 || base(arrOf(value)) != base(arrOf(v))))
+//@   at_call (*orderedmap.OrderedMap).Set@newSubMap a-sub-pipeline-is-rebuilt-stage-by-stage {C01,C02,C03,C04,C05,C12,C13,C14,C15,C19}: implies(subFound && subMeta == VOp(0) && isArr(subV), isArr(value) && len(arrOf(value)) == len(arrOf(subV)) && (len(arrOf(subV)) == 0 || base(arrOf(value)) != base(arrOf(subV))))
 //@   at_call (*orderedmap.OrderedMap).Set@newMap the-short-form-of-a-stage-names-a-collection {C12}: implies(redactNamespaces && isMap(opMeta) && (k == "$unionWith" || k == "$out" || k == "$merge") && isStr(v), value == VStr(HashNameSpec(redactedString, strOf(v))))
 //@   at_call redactArrayValues#3 the-sub-key-is-on-the-path-handed-down {C14,C05}: len(arg_keyPath) >= 1 && arg_keyPath[len(arg_keyPath)-1] == subK && (matchAny(redactedFieldsRegexp, selems(arg_keyPath), off(arg_keyPath), len(arg_keyPath)) || !reMatch(redactedFieldsRegexp, subK))
 //@   at_call redactArrayValues#4 the-sub-key-is-on-the-path-handed-down {C14,C05}: len(arg_keyPath) >= 1 && arg_keyPath[len(arg_keyPath)-1] == subK && (matchAny(redactedFieldsRegexp, selems(arg_keyPath), off(arg_keyPath), len(arg_keyPath)) || !reMatch(redactedFieldsRegexp, subK))
@@ -654,9 +654,9 @@ package main
 //@   at_call redactPipelineStage#12 the-sub-key-is-on-the-path-handed-down {C14,C05}: len(arg_keyPath) >= 1 && arg_keyPath[len(arg_keyPath)-1] == subK && (matchAny(redactedFieldsRegexp, selems(arg_keyPath), off(arg_keyPath), len(arg_keyPath)) || !reMatch(redactedFieldsRegexp, subK))
 //@   at_call (*orderedmap.OrderedMap).Set@newMap field-path-references-are-renamed {C15}: implies(redactFieldNames && isDollar(v) && (opMeta == nil || opMeta == VOp(2)), value == VStr(HashNameSpec(redactedString, strOf(v))) || (value == v && isTableKey(strOf(v))))
 //@   at_call (*orderedmap.OrderedMap).Set@newSubMap field-path-references-are-renamed {C15}: implies(redactFieldNames && isDollar(subV) && !subFound, value == VStr(HashNameSpec(redactedString, strOf(subV))) || (value == subV && isTableKey(strOf(subV))))
-//@   at_call (*orderedmap.OrderedMap).Set@newPipelineMap facet-entry-relation {C01,C02,C03,C04,C05,C12,C14,C15,C19}: key == subK && FacetEntryRel(subV, value)
+//@   at_call (*orderedmap.OrderedMap).Set@newPipelineMap facet-entry-relation {C01,C02,C03,C04,C05,C12,C13,C14,C15,C19}: key == subK && FacetEntryRel(subV, value)
 //@   ensures key-path-frame: unchangedBelowExcept("Arr:Str", base(keyPath))
-//@   at_call redactPipelineStage search-mode-is-decided-for-each-stage-on-its-own {C01,C02,C03,C04,C05,C12,C14,C15,C19}: implies(len(arg_keyPath) == 0, IsSearch(arg_stage, arg_inSearchStage))
+//@   at_call redactPipelineStage search-mode-is-decided-for-each-stage-on-its-own {C01,C02,C03,C04,C05,C12,C13,C14,C15,C19}: implies(len(arg_keyPath) == 0, IsSearch(arg_stage, arg_inSearchStage))
 //@   at_call redactScalarValue@keyPath=newKeyPath the-leaf-is-classified-under-its-parent-and-grand-parent-key {C05,C01,C19}: len(arg_keyPath) >= 1 && arg_keyPath[len(arg_keyPath)-1] == k && implies(len(keyPath) > 0, len(arg_keyPath) >= 2 && arg_keyPath[len(arg_keyPath)-2] == keyPath[len(keyPath)-1])
 //@   at_call redactScalarValue#1 a-field-name-operand-that-is-no-string-is-classified-under-its-key {C05}: len(arg_keyPath) == 1 && arg_keyPath[0] == k && !isStr(arg_v)
 //@   at_call redactScalarValue#2 the-sub-leaf-is-classified-under-its-parent-key {C05,C01,C19}: len(arg_keyPath) >= 2 && arg_keyPath[len(arg_keyPath)-1] == subK
@@ -665,7 +665,7 @@ package main
 //@   at_call redactPipelineStage@stage=vTyped the-key-path-carries-every-name-down-to-the-value {C14}: len(arg_keyPath) == 0 || (matchAny(redactedFieldsRegexp, selems(arg_keyPath), off(arg_keyPath), len(arg_keyPath)) == (matchAny(redactedFieldsRegexp, selems(keyPath), off(keyPath), len(keyPath)) || reMatch(redactedFieldsRegexp, k)))
 //@   at_call redactArrayValues@arr=vTyped the-key-path-carries-every-name-down-to-the-value {C14}: matchAny(redactedFieldsRegexp, selems(arg_keyPath), off(arg_keyPath), len(arg_keyPath)) == (matchAny(redactedFieldsRegexp, selems(keyPath), off(keyPath), len(keyPath)) || reMatch(redactedFieldsRegexp, k))
 //@   ensures result-kind {C03}: (isMap(stage) && isMap(result) && mapOf(result) > old(heapTop) && mapOf(result) <= heapTop && !isTable(mapOf(result))) || (isArr(stage) && result == stage) || (!isMap(stage) && !isArr(stage) && result == stage)
-//@   defines stage-relation {C01,C02,C03,C04,C05,C12,C14,C15,C19}: RelS(c, redactFieldNames, inSearchStage, stage, result) := (isMap(stage) && isMap(result) && PRel(c, redactFieldNames, inSearchStage, A, om(mapOf(result)))) || (isArr(stage) && result == stage && RelA(c, redactFieldNames, inSearchStage, ite(len(keyPath) > 0, keyPath[len(keyPath)-1], ""), arrOf(stage))) || (!isMap(stage) && !isArr(stage) && result == stage)
+//@   defines stage-relation {C01,C02,C03,C04,C05,C12,C13,C14,C15,C19}: RelS(c, redactFieldNames, inSearchStage, stage, result) := (isMap(stage) && isMap(result) && PRel(c, redactFieldNames, inSearchStage, A, om(mapOf(result)))) || (isArr(stage) && result == stage && RelA(c, redactFieldNames, inSearchStage, ite(len(keyPath) > 0, keyPath[len(keyPath)-1], ""), arrOf(stage))) || (!isMap(stage) && !isArr(stage) && result == stage)
 //@   loop 1 each exempt-parameters-are-kept-as-they-are {C04}: implies(opMeta == VOp(1) && !isArr(v), omIdx(om(newMap), redactedKey) >= 0 && omVal(om(newMap), omIdx(om(newMap), redactedKey)) == v)
 //@   loop 6 each exempt-parameters-are-kept-as-they-are {C04}: implies(subMeta == VOp(1) && subFound && !isArr(subV), omIdx(om(newSubMap), subK) >= 0 && omVal(om(newSubMap), omIdx(om(newSubMap), subK)) == subV)
 
@@ -678,29 +678,29 @@ package main
 //@   local c := mkCfg(redactedString, redactNumbers, redactBooleans, shouldEncrypt && encryptionKey != nil, mkbytes(elems(encryptionKey), off(encryptionKey), len(encryptionKey)), redactedFieldsRegexp, emailRegex, redactNamespaces)
 //@   local A := om(cmd)
 //@   loop 1 invariant key-path-frame: unchangedBelow("Arr:Str")
-//@   loop 1 each stage-relation {C01,C02,C03,C04,C05,C12,C14,C15,C19}: RelS(c, shouldEagerRedact, inSearchStage, stage, newPipeline[_idx])
+//@   loop 1 each stage-relation {C01,C02,C03,C04,C05,C12,C13,C14,C15,C19}: RelS(c, shouldEagerRedact, inSearchStage, stage, newPipeline[_idx])
 //@   assert_after (*orderedmap.OrderedMap).Get#3 keys-so-far: ChangedOnlyZ(A, om(cmd))
 //@   assert_after (*orderedmap.OrderedMap).Get#5 keys-so-far: ChangedOnlyZ(A, om(cmd))
 //@   assert_after (*orderedmap.OrderedMap).Get#7 keys-so-far: ChangedOnlyZ(A, om(cmd))
 //@   assert_after (*orderedmap.OrderedMap).Get#10 keys-so-far: ChangedOnlyZ(A, om(cmd))
 //@   assert_after (*orderedmap.OrderedMap).Get#12 keys-so-far: ChangedOnlyZ(A, om(cmd))
-//@   at_call redactPipelineStage search-mode-is-decided-for-each-stage-on-its-own {C01,C02,C03,C04,C05,C12,C14,C15,C19}: implies(len(arg_keyPath) == 0, IsSearch(arg_stage, arg_inSearchStage))
+//@   at_call redactPipelineStage search-mode-is-decided-for-each-stage-on-its-own {C01,C02,C03,C04,C05,C12,C13,C14,C15,C19}: implies(len(arg_keyPath) == 0, IsSearch(arg_stage, arg_inSearchStage))
 //@   ensures only-this-map: unchangedBelowExcept("Mem:OMap", cmd)
 //@   ensures only-zone-keys-change {C04,C03}: implies(cmd != nil, ChangedOnlyZ(A, om(cmd)))
-//@   ensures zone-query-map {C01,C02,C03,C04,C05,C12,C14,C15,C19}: implies(cmd != nil, ZoneMap(c, shouldEagerRedact, A, om(cmd), "query"))
-//@   ensures zone-filter-map {C01,C02,C03,C04,C05,C12,C14,C15,C19}: implies(cmd != nil, ZoneMap(c, shouldEagerRedact, A, om(cmd), "filter"))
-//@   ensures zone-sort-map {C01,C02,C03,C04,C05,C12,C14,C15,C19}: implies(cmd != nil, ZoneMap(c, shouldEagerRedact, A, om(cmd), "sort"))
-//@   ensures zone-update-map {C01,C02,C03,C04,C05,C12,C14,C15,C19}: implies(cmd != nil, ZoneMap(c, shouldEagerRedact, A, om(cmd), "update"))
-//@   ensures zone-update-array {C01,C02,C03,C04,C05,C12,C14,C15,C19}: implies(cmd != nil, ZoneArr(c, shouldEagerRedact, A, om(cmd), "update"))
-//@   ensures zone-updates-array {C01,C02,C03,C04,C05,C12,C14,C15,C19}: implies(cmd != nil, ZoneArr(c, shouldEagerRedact, A, om(cmd), "updates"))
-//@   ensures zone-deletes-array {C01,C02,C03,C04,C05,C12,C14,C15,C19}: implies(cmd != nil, ZoneArr(c, shouldEagerRedact, A, om(cmd), "deletes"))
-//@   ensures zone-q-map {C01,C02,C03,C04,C05,C12,C14,C15,C19}: implies(cmd != nil, ZoneMap(c, shouldEagerRedact, A, om(cmd), "q"))
-//@   ensures zone-u-map {C01,C02,C03,C04,C05,C12,C14,C15,C19}: implies(cmd != nil, ZoneMap(c, shouldEagerRedact, A, om(cmd), "u"))
-//@   ensures zone-u-array {C01,C02,C03,C04,C05,C12,C14,C15,C19}: implies(cmd != nil, ZoneArr(c, shouldEagerRedact, A, om(cmd), "u"))
-//@   ensures zone-arrayFilters-array {C01,C02,C03,C04,C05,C12,C14,C15,C19}: implies(cmd != nil, ZoneArr(c, shouldEagerRedact, A, om(cmd), "arrayFilters"))
-//@   ensures zone-documents-array {C01,C02,C03,C04,C05,C12,C14,C15,C19}: implies(cmd != nil && omIdx(A, "insert") >= 0, ZoneArr(c, shouldEagerRedact, A, om(cmd), "documents"))
-//@   ensures zone-pipeline-array {C01,C02,C03,C04,C05,C12,C14,C15,C19}: implies(cmd != nil && omIdx(A, "pipeline") >= 0 && isArr(omVal(A, omIdx(A, "pipeline"))), isArr(omVal(om(cmd), omIdx(A, "pipeline"))) && len(arrOf(omVal(om(cmd), omIdx(A, "pipeline")))) == len(arrOf(omVal(A, omIdx(A, "pipeline")))))
-//@   defines command-relation {C01,C02,C03,C04,C05,C12,C14,C15,C19}: RelC(c, shouldEagerRedact, cmd) := true
+//@   ensures zone-query-map {C01,C02,C03,C04,C05,C12,C13,C14,C15,C19}: implies(cmd != nil, ZoneMap(c, shouldEagerRedact, A, om(cmd), "query"))
+//@   ensures zone-filter-map {C01,C02,C03,C04,C05,C12,C13,C14,C15,C19}: implies(cmd != nil, ZoneMap(c, shouldEagerRedact, A, om(cmd), "filter"))
+//@   ensures zone-sort-map {C01,C02,C03,C04,C05,C12,C13,C14,C15,C19}: implies(cmd != nil, ZoneMap(c, shouldEagerRedact, A, om(cmd), "sort"))
+//@   ensures zone-update-map {C01,C02,C03,C04,C05,C12,C13,C14,C15,C19}: implies(cmd != nil, ZoneMap(c, shouldEagerRedact, A, om(cmd), "update"))
+//@   ensures zone-update-array {C01,C02,C03,C04,C05,C12,C13,C14,C15,C19}: implies(cmd != nil, ZoneArr(c, shouldEagerRedact, A, om(cmd), "update"))
+//@   ensures zone-updates-array {C01,C02,C03,C04,C05,C12,C13,C14,C15,C19}: implies(cmd != nil, ZoneArr(c, shouldEagerRedact, A, om(cmd), "updates"))
+//@   ensures zone-deletes-array {C01,C02,C03,C04,C05,C12,C13,C14,C15,C19}: implies(cmd != nil, ZoneArr(c, shouldEagerRedact, A, om(cmd), "deletes"))
+//@   ensures zone-q-map {C01,C02,C03,C04,C05,C12,C13,C14,C15,C19}: implies(cmd != nil, ZoneMap(c, shouldEagerRedact, A, om(cmd), "q"))
+//@   ensures zone-u-map {C01,C02,C03,C04,C05,C12,C13,C14,C15,C19}: implies(cmd != nil, ZoneMap(c, shouldEagerRedact, A, om(cmd), "u"))
+//@   ensures zone-u-array {C01,C02,C03,C04,C05,C12,C13,C14,C15,C19}: implies(cmd != nil, ZoneArr(c, shouldEagerRedact, A, om(cmd), "u"))
+//@   ensures zone-arrayFilters-array {C01,C02,C03,C04,C05,C12,C13,C14,C15,C19}: implies(cmd != nil, ZoneArr(c, shouldEagerRedact, A, om(cmd), "arrayFilters"))
+//@   ensures zone-documents-array {C01,C02,C03,C04,C05,C12,C13,C14,C15,C19}: implies(cmd != nil && omIdx(A, "insert") >= 0, ZoneArr(c, shouldEagerRedact, A, om(cmd), "documents"))
+//@   ensures zone-pipeline-array {C01,C02,C03,C04,C05,C12,C13,C14,C15,C19}: implies(cmd != nil && omIdx(A, "pipeline") >= 0 && isArr(omVal(A, omIdx(A, "pipeline"))), isArr(omVal(om(cmd), omIdx(A, "pipeline"))) && len(arrOf(omVal(om(cmd), omIdx(A, "pipeline")))) == len(arrOf(omVal(A, omIdx(A, "pipeline")))))
+//@   defines command-relation {C01,C02,C03,C04,C05,C12,C13,C14,C15,C19}: RelC(c, shouldEagerRedact, cmd) := true
 
 //@ func redactNamespace
 //@   safety C07
